@@ -74,7 +74,7 @@ CHECKS = {
             '§5 C05'),
     'C06': ('correspondence',
             'Lean 4 proof that the fringe walk visits exactly the reflexive-transitive subclasses (structural recursion on class index), get() lists each once; correspondence on random class DAGs',
-            'Theorems in lean/DesperProofs/Props/C06.lean (walk sound and complete w.r.t. the subclass relation, exact type first, get without duplicates); correspondence on random DAGs accepted by C3 with all query types.',
+            'Theorems in lean/DesperProofs/Props/C06.lean (walk sound and complete w.r.t. the subclass relation, exact type first, get without duplicates, remove_component / remove_processor detach exactly one); correspondence on random DAGs accepted by C3 with all query types.',
             'Trusted: Lean kernel; reading of the statement; correspondence harness (bounded by generators). Lifecycle callbacks and processors are scripted in the World model: they log, may raise, may call delete_entity, and may make nested World calls on the same world (Universe.tie); theorems needing passive callbacks carry [U.NoReenter] / [U.Passive] in their statements, the C01 theorems hold for re-entrant callbacks too (ReactInv); plain-event callbacks re-enter only as sole listener (set order of several listeners is canonicalised, not modelled); CPython dict/set/__subclasses__ order semantics are modelled (insertion order, creation order), not verified; default id generator only.',
             '§5 C06'),
     'C07': ('correspondence',
